@@ -3,14 +3,14 @@
    is a boolean on (monitor state, event, observation); per-step lemmas show it false from every
    state satisfying a small invariant, and [monitor_gen] lifts them to all event lists. *)
 From Coq Require Import ZArith NArith List Bool Lia ZifyN ZifyNat ZifyBool.
-From Verif Require Import Base.Check Model.Failover Model.FailoverSpec.
+From Verif Require Import Base.Check Model.HealthHyst Model.Failover Model.FailoverSpec.
 Import ListNotations.
 Local Open Scope N_scope.
 
 Definition xabs (c : config) (x : exec) : kind * role :=
   (x_kind x, match x_kind x with FO => Active | FB => c_orig c end).
 Definition abs (c : config) (s : state) : sstate :=
-  mkSS (now s) (healthy s) (since s) (role_ s) (map (xabs c) (inflight s)).
+  mkSS (now s) (healthy s) (h_cf s) (h_cs s) (healthy s) (since s) (role_ s) (map (xabs c) (inflight s)).
 Definition nxt (c : config) (s : state) (e : ev) : state := fst (fst (step c s e)).
 Definition obs (c : config) (s : state) (e : ev) : out := snd (fst (step c s e)).
 
@@ -21,18 +21,19 @@ Ltac dm := match goal with
   | |- context [match ?x with _ => _ end] =>
       lazymatch x with context [match _ with _ => _ end] => fail | _ => destruct x eqn:? end
   end.
-Ltac unf := unfold step_core, deliver_down, deliver_up, fo_start, fb_start, finish, set_fo, set_fb, set_st, stop.
+Ltac rwb := repeat match goal with H : (_ <=? _) = _ |- _ => rewrite H end.
+Ltac unf := unfold step_core, health_ev, goes_down, goes_up, deliver_down, deliver_up, fo_start, fb_start, finish, set_fo, set_fb, set_st, stop.
 
 Lemma remove_nth_none {A} : forall i (l : list A), nth_error l i = None -> remove_nth i l = l.
 Proof. induction i; destruct l; cbn; intros; try congruence. f_equal; auto. Qed.
 
-Lemma snext_abs : forall c s e, snext (abs c s) e (obs c s e) = abs c (nxt c s e).
+Lemma snext_abs : forall c s e, snext c (abs c s) e (obs c s e) = abs c (nxt c s e).
 Proof.
   intros c s e. unfold obs, nxt, step.
-  destruct s as [r st0 h nw fo0 fb0 foz fbz infl ni nc nx nf sn].
-  destruct e; unf; cbn.
-  all: repeat (dm; cbn); unfold abs, snext; cbn; rewrite ?map_app, ?map_remove_nth; cbn; try reflexivity.
-  rewrite remove_nth_none; auto. rewrite nth_error_map, Heqo; reflexivity.
+  destruct s as [r st0 h hcf hcs nw fo0 fb0 foz fbz infl ni nc nx nf sn].
+  destruct h, e; unf; cbn.
+  all: repeat (dm; cbn); unfold abs, snext, shyst, hyst_step; cbn; rwb; cbn; rewrite ?map_app, ?map_remove_nth; cbn; try reflexivity.
+  all: rewrite remove_nth_none; auto; rewrite nth_error_map, Heqo; reflexivity.
 Qed.
 
 Lemma has_kind_abs c k l : has_kind k (map (xabs c) l) = existsb (fun x => kind_eqb (x_kind x) k) l.
@@ -50,7 +51,7 @@ Lemma role_eqb_eq a b : role_eqb a b = true <-> a = b.
 Proof. destruct a, b; cbn; split; congruence. Qed.
 
 Ltac start s e :=
-  destruct s as [r st0 h nw fo0 fb0 foz fbz infl ni nc nx nf sn];
+  destruct s as [r st0 h hcf hcs nw fo0 fb0 foz fbz infl ni nc nx nf sn];
   destruct e; unf; cbn.
 Ltac go := repeat (dm; cbn in * ); rewrite ?role_eqb_refl in *; cbn in *.
 
@@ -66,6 +67,14 @@ Lemma step_v1 : forall c s e, v1 (abs c s) e (obs c s e) = false.
 Proof.
   intros c s e. unfold v1, obs, step. start s e.
   all: go; try reflexivity; try congruence.
+Qed.
+
+(* clause 6: the Model's health report changes only as the hysteresis over the check results allows *)
+Lemma step_v6 : forall c s e, v6 c (abs c s) e (obs c s e) = false.
+Proof.
+  intros c s e. unfold v6, obs, step. start s e.
+  all: unfold shyst, hyst_step; cbn.
+  all: destruct h; go; rwb; cbn; try reflexivity; try congruence.
 Qed.
 
 Lemma step_v9 : forall c s e, v9 e (obs c s e) = false.
@@ -102,12 +111,12 @@ Proof.
   all: go; rewrite ?existsb_app; cbn; rewrite ?orb_true_r; auto; try congruence.
 Qed.
 
-Lemma obs_observe c s e : exists l cb r, obs c s e = observe (nxt c s e) l cb r.
+Lemma obs_observe c s e : exists l hv cb r, obs c s e = observe (nxt c s e) l hv cb r.
 Proof.
   unfold obs, nxt, step. destruct (step_core c s e) as [[[[s1 l] cb] r] mk]. cbn. eauto.
 Qed.
 
-Lemma v4_of_inv4 c s l cb r : inv4 s = true -> v4 (abs c s) (observe s l cb r) = false.
+Lemma v4_of_inv4 c s l hv cb r : inv4 s = true -> v4 (abs c s) (observe s l hv cb r) = false.
 Proof.
   unfold inv4, v4, abs, observe. cbn -[has_kind]. rewrite !has_kind_abs. fold (isk FO) (isk FB).
   destruct (st s); intros H; rewrite ?H; cbn; auto.
@@ -194,12 +203,13 @@ Proof.
   - rewrite (IHi _ _ H Hf). apply orb_true_r.
 Qed.
 
-Lemma step_inv5 : forall c s e, quiet_fb s e = true -> inv5 s -> inv5 (nxt c s e).
+Lemma step_inv5 : forall c s e, quiet_fb c s e = true -> inv5 s -> inv5 (nxt c s e).
 Proof.
   intros c s e. unfold inv5, quiet_fb, nxt, step. fold (isk FB). start s e.
   all: intros G H; go; rewrite ?existsb_app; cbn; rewrite ?orb_false_r; auto; try congruence.
   all: try (intros H1; apply existsb_remove_nth in H1; auto).
   all: try (apply negb_true_iff in G; congruence).
+  all: intros H1; rewrite H1 in G; discriminate G.
 Qed.
 
 Lemma step_v5 : forall c s e, inv5 s -> v5 (abs c s) e (obs c s e) = false.
@@ -217,10 +227,10 @@ Lemma filter_flag (m : N -> bool) b k : filter m (flag b k) = if b && m k then [
 Proof. destruct b; cbn; auto. Qed.
 
 Lemma filter_only k c ss e o :
-  In k [0; 1; 2; 3; 4; 5; 9] ->
+  In k [0; 1; 2; 3; 4; 5; 6; 9] ->
   filter (only k) (viol c ss e o) =
   flag (match k with 0 => v0 ss e o | 1 => v1 ss e o | 2 => v2 c ss e o | 3 => v3 ss o
-                | 4 => v4 (snext ss e o) o | 5 => v5 ss e o | _ => v9 e o end) k.
+                | 4 => v4 (snext c ss e o) o | 5 => v5 ss e o | 6 => v6 c ss e o | _ => v9 e o end) k.
 Proof.
   intros Hk. unfold viol. rewrite !filter_app, !filter_flag. unfold only.
   cbn in Hk. repeat (destruct Hk as [<- | Hk]; [cbn; rewrite ?andb_false_r, ?andb_true_r; cbn;
@@ -259,13 +269,20 @@ Proof.
   intros s e _ _. split; auto. rewrite filter_only by (cbn; auto). now rewrite step_v1.
 Qed.
 
+Theorem mon_health_report_sound : forall c evs,
+  monitor (only 6) c (init c) (sinit c) evs = None.
+Proof.
+  intros. rewrite sinit_abs. apply (monitor_gen (only 6) always (fun _ => True)); auto using run_ok_always.
+  intros s e _ _. split; auto. rewrite filter_only by (cbn; tauto). now rewrite step_v6.
+Qed.
+
 Theorem mon_never_stuck : forall c evs, monitor (only 4) c (init c) (sinit c) evs = None.
 Proof.
   intros. rewrite sinit_abs.
   apply (monitor_gen (only 4) always (fun s => inv4 s = true)); auto using run_ok_always.
   intros s e HI _. pose proof (step_inv4 c s e HI) as HI'. split; auto.
   rewrite filter_only by (cbn; tauto). rewrite snext_abs.
-  destruct (obs_observe c s e) as (l & cb & r & ->). now rewrite v4_of_inv4.
+  destruct (obs_observe c s e) as (l & hv & cb & r & ->). now rewrite v4_of_inv4.
 Qed.
 
 Theorem mon_sustained_down_partial : forall c evs,
@@ -290,17 +307,17 @@ Proof.
 Qed.
 
 Theorem mon_failback_completes_healthy_partial : forall c evs,
-  run_ok quiet_fb c (init c) evs = true -> monitor (only 5) c (init c) (sinit c) evs = None.
+  run_ok (quiet_fb c) c (init c) evs = true -> monitor (only 5) c (init c) (sinit c) evs = None.
 Proof.
   intros c evs G. rewrite sinit_abs.
-  apply (monitor_gen (only 5) quiet_fb inv5); auto; [|discriminate].
+  apply (monitor_gen (only 5) (quiet_fb c) inv5); auto; [|discriminate].
   intros s e HI HP. split; [apply step_inv5; auto|].
   rewrite filter_only by (cbn; tauto). now rewrite step_v5.
 Qed.
 
 (* all guards together: the complete monitor (the one the harness runs) never rejects the Model *)
 Definition all_guards (c : config) (s : state) (e : ev) : bool :=
-  not_stale s e && serial_step c s e && quiet_fb s e.
+  not_stale s e && serial_step c s e && quiet_fb c s e.
 
 Theorem mon_all_partial : forall c evs,
   run_ok (all_guards c) c (init c) evs = true -> monitor (fun _ => true) c (init c) (sinit c) evs = None.
@@ -314,8 +331,8 @@ Proof.
   pose proof (step_inv4 c s e H4) as H4'.
   split; [repeat split; auto using step_inv2, step_inv5; apply step_inv3; auto|].
   assert (E : forall l, filter (fun _ : N => true) l = l) by (induction l; cbn; congruence).
-  rewrite E. unfold viol. rewrite step_v0, step_v1, step_v2, step_v3, step_v5, step_v9 by auto.
-  rewrite snext_abs. destruct (obs_observe c s e) as (l & cb & r & ->). rewrite v4_of_inv4 by auto. reflexivity.
+  rewrite E. unfold viol. rewrite step_v0, step_v1, step_v2, step_v3, step_v5, step_v6, step_v9 by auto.
+  rewrite snext_abs. destruct (obs_observe c s e) as (l & hv & cb & r & ->). rewrite v4_of_inv4 by auto. reflexivity.
 Qed.
 
 (* the statement in terms of what the harness evaluates (Base/Check.v) *)
@@ -343,7 +360,7 @@ Proof.
 Qed.
 
 (* ---------- refutations (witnesses evaluated by vm_compute) ---------- *)
-Definition cfg0 : config := Build_config 10 12 true Standby.
+Definition cfg0 : config := Build_config 10 12 true Standby 1 1.
 Definition w_stale : list ev := [Down; Advance 10; Up; Down; StaleFO].
 Definition w_double : list ev :=
   [Down; Advance 10; Up; Down; Advance 10; FireFO; StaleFO; CbReturn 0 true; CbReturn 0 true].
